@@ -33,6 +33,7 @@ except KeyError:
     RG = ReferenceGenome('C32rg', ['1', 'X'], {'1': 1000, 'X': 500})
 
 STRS = ['', 'a', 'b c', 'nan', '-', 'é\n"']
+ALLELES = [0, 1, 2, 10, 999]     # str()/int() of symbolic integers is intractable for CrossHair: alleles are chosen, not symbolic
 NDARRAYS = {
     'int32': [np.array([], dtype=np.int32), np.array([1, -2, 3], dtype=np.int32),
               np.array([[1, 2, 3], [4, 5, 6]], dtype=np.int32), np.asfortranarray(np.array([[1, 2, 3], [4, 5, 6]], dtype=np.int32)),
@@ -49,7 +50,8 @@ class Pool:
 
     def __init__(self, ints, floats, ks, bools, miss, lens, dict_missing=False):
         self.dict_missing = dict_missing
-        self.v = {'i': ints, 'f': floats, 'k': ks, 'b': bools, 'm': miss, 'n': lens}
+        # ints = [i0, i1 (64-bit), j0, j1, j2 (32-bit), p0, p1 (1..500)]
+        self.v = {'i': ints[0:2], 'j': ints[2:5], 'p': ints[5:7], 'f': floats, 'k': ks, 'b': bools, 'm': miss, 'n': lens}
         self.c = {k: 0 for k in self.v}
 
     def nx(self, k):
@@ -64,7 +66,7 @@ def mk(t, P, allow_missing=True):
     if allow_missing and P.nx('m'):
         return None
     if t == T.tint32:
-        return P.nx('i') % (2 ** 32) - 2 ** 31
+        return P.nx('j')
     if t == T.tint64:
         return P.nx('i')
     if t == T.tfloat32 or t == T.tfloat64:
@@ -83,10 +85,10 @@ def mk(t, P, allow_missing=True):
     if t == T.tcall:
         pl = P.nx('k') % 3
         ph = P.nx('b')
-        al = [P.nx('i') % 1000 for _ in range(pl)]
+        al = [ALLELES[P.nx('k') % len(ALLELES)] for _ in range(pl)]
         return Call(al, phased=ph)
     if isinstance(t, T.tlocus):
-        return Locus('X' if P.nx('b') else '1', 1 + P.nx('i') % 500, RG)
+        return Locus('X' if P.nx('b') else '1', P.nx('p'), RG)
     if isinstance(t, T.tarray):
         return [mk(t.element_type, P) for _ in range(P.nx('n'))]
     if isinstance(t, T.tset):
@@ -238,12 +240,13 @@ def catalogue(tier):
     return seen
 
 
-SIG = ('i0: int, i1: int, i2: int, i3: int, f0: float, f1: float, k0: int, k1: int, k2: int, k3: int, '
+SIG = ('i0: int, i1: int, j0: int, j1: int, j2: int, p0: int, p1: int, f0: float, f1: float, k0: int, k1: int, k2: int, k3: int, '
        'b0: bool, b1: bool, b2: bool, m0: bool, m1: bool, m2: bool, m3: bool, m4: bool, n0: int, n1: int, n2: int')
-PRE = '''    pre: -2**63 <= i0 < 2**63 and -2**63 <= i1 < 2**63 and -2**63 <= i2 < 2**63 and -2**63 <= i3 < 2**63
+PRE = '''    pre: -2**63 <= i0 < 2**63 and -2**63 <= i1 < 2**63 and 1 <= p0 <= 500 and 1 <= p1 <= 500
+    pre: -2**31 <= j0 < 2**31 and -2**31 <= j1 < 2**31 and -2**31 <= j2 < 2**31
     pre: 0 <= k0 < 12 and 0 <= k1 < 12 and 0 <= k2 < 12 and 0 <= k3 < 12
     pre: 0 <= n0 <= 2 and 0 <= n1 <= 2 and 0 <= n2 <= 2'''
-ARGS = '[i0, i1, i2, i3], [f0, f1], [k0, k1, k2, k3], [b0, b1, b2], [m0, m1, m2, m3, m4], [n0, n1, n2]'
+ARGS = '[i0, i1, j0, j1, j2, p0, p1], [f0, f1], [k0, k1, k2, k3], [b0, b1, b2], [m0, m1, m2, m3, m4], [n0, n1, n2]'
 TEMPLATE = '''
 def check_{K}({SIG}) -> bool:
     """
